@@ -28,6 +28,7 @@ class Level:
     post: int = 0  # number of own postconditions
     snaps: int = 0  # number of own snapshots
     inv: Tuple[str, ...] = ()  # check_on of each own invariant: "CALL" | "SETATTR" | "ALL"
+    foreign: bool = False  # a foreign functools.wraps decorator on top of this level's contract decorators
 
 
 @dataclass(frozen=True)
